@@ -43,6 +43,19 @@ def run(ck):
         ck.obligation('translate(5 copies of get_relative_dist -> gen/RelDistGen.v)', True)
     except Exception as e:
         ck.obligation('translate(5 copies of get_relative_dist -> gen/RelDistGen.v)', False, repr(e)[:400])
+    # 1b. every ordering decision between two order hints goes through one of the distance helpers: no direct relational comparison
+    #     of two order-hint expressions anywhere in the library (a plain `a > b` is wrong across the wrap)
+    direct = []
+    for root, _, files in os.walk(os.path.join(REPO, 'Source', 'Lib')):
+        for fn in files:
+            if not fn.endswith(('.c', '.h')):
+                continue
+            txt = re.sub(r'/\*.*?\*/', lambda m_: re.sub(r'[^\n]', ' ', m_.group(0)), open(os.path.join(root, fn), errors='replace').read(), flags=re.S)
+            for ln, line in enumerate(txt.split('\n'), 1):
+                line = line.split('//')[0].replace('->', '.')
+                if re.search(r'order_hint[A-Za-z0-9_\.\[\]]*\s*(<=|>=|<|>)\s*[A-Za-z0-9_\.\(\)\*&]*order_hint', line) and '<<' not in line and '>>' not in line:
+                    direct.append('%s:%d: %s' % (os.path.relpath(os.path.join(root, fn), REPO), ln, line.strip()[:120]))
+    ck.obligation('no direct relational comparison of two order hints in Source/Lib (all ordering goes through the proved distance helpers)', not direct, '; '.join(direct[:4]))
     # 2. prove
     ck.prove('Properties_C22', extra_modules=['Proofs_C22', 'RelDistSpec'], gen_modules=['RelDistGen'])
     # 3. correspondence + search: exhaustive run of the real C text of every copy against the spec and the generated model
